@@ -623,6 +623,22 @@ func runC08(r *simkit.R) {
 	ntomb, nlock := 2, 2
 	w := newEnWorld(r, cfg, nreg+ntomb+nlock)
 	w.layout(nreg, ntomb, nlock, false)
+	// in half of the runs objects carry their own expiration epoch, earlier than their locks':
+	// the lock must keep them retrievable past it (expired-object collection must honour locks)
+	expiring := r.Bool(50)
+	if expiring {
+		for id := 0; id < nreg; id++ {
+			if r.Bool(60) {
+				w.u.Specs[id].Exp = 1 + r.Intn(2)
+			}
+		}
+		for id := nreg + ntomb; id < nreg+ntomb+nlock; id++ {
+			l := w.u.Specs[id]
+			if e := w.u.Specs[l.Target].Exp; e >= 0 && l.Exp <= e {
+				l.Exp = e + 1 + r.Intn(2)
+			}
+		}
+	}
 	w.start()
 	r.Logf("config %s", cfg)
 	for id := 0; id < nreg+ntomb+nlock; id++ {
@@ -630,10 +646,14 @@ func runC08(r *simkit.R) {
 	}
 	faultPct := []int{0, 0, 8, 20}[r.Intn(4)]
 	nops := 4 + r.Intn(13)
+	epochW := 8
+	if expiring {
+		epochW = 16
+	}
 	var ops []*enOp
 	for i := 0; i < nops; i++ {
 		var op *enOp
-		switch r.Weighted(22, 14, 14, 24, 12, 8, 4, 2) {
+		switch r.Weighted(22, 14, 14, 24, 12, epochW, 4, 2) {
 		case 0:
 			op = &enOp{kind: "put", id: r.Intn(nreg)}
 		case 1:
@@ -662,6 +682,12 @@ func runC08(r *simkit.R) {
 	partial := map[int]bool{}     // object -> its lock did not reach every shard holding it
 	partialAny := map[int]bool{}  // object -> its lock did not reach some shard (not holding the object)
 	rolledBack := map[int]bool{}  // object -> a tombstone of it was deleted again by a broadcast rollback
+	pendingArm := map[int]int{}   // object already past its own expiration when the lock was acknowledged -> lock; armed by the next successful Get
+	lockAckAt := map[int]int{}    // object -> boundary counter when its lock was acknowledged
+	gcCheckAt := map[int]int{}    // object -> boundary counter of the last lock check made by the expired-objects handling
+	gcDeleteAt := map[int]int{}   // object -> boundary counter of the last physical removal by the expired-objects handling
+	detached := map[int]bool{}    // shard index -> removed from the engine after its evacuation
+	nbound := 0
 	tombMaybe := map[int]bool{}   // object -> a tombstone visit of it took effect although it was reported as failed (injected)
 	dupLock := map[int]bool{}     // object -> its lock was acknowledged while another broadcast of the same lock was in flight
 	inFlight := map[*enOp]bool{}
@@ -697,7 +723,17 @@ func runC08(r *simkit.R) {
 		if rolledBack[x] {
 			diag = "a tombstone of it had been stored on a shard and then rolled back by the failed broadcast"
 		}
-		if partial[x] {
+		if at, ok := gcDeleteAt[x]; ok && at > lockAckAt[x] && !partial[x] && !partialAny[x] {
+			// the expired-objects handling removed it physically after the lock was acknowledged
+			switch c, checked := gcCheckAt[x]; {
+			case !checked:
+				diag = "the expired-objects handling removed it without any lock check"
+			case c > lockAckAt[x]:
+				diag = "the expired-objects handling removed it although its lock check ran after the lock was acknowledged"
+			default:
+				diag = "the lock was acknowledged between the lock check and the removal by the expired-objects handling"
+			}
+		} else if partial[x] {
 			diag = "the lock was acknowledged although a shard holding the object did not store it"
 		} else if dupLock[x] {
 			diag = "the lock was acknowledged because a shard already held it while another broadcast of the same lock was still in flight"
@@ -715,21 +751,66 @@ func runC08(r *simkit.R) {
 			op := ops[next]
 			next++
 			if op.kind == "evacuate" {
+				att := 0
 				for i := range w.shards {
+					if detached[i] {
+						continue
+					}
+					att++
 					if w.modeOf(i).ReadOnly() {
 						op.srcs = append(op.srcs, i)
 					}
 				}
-				if len(op.srcs) == 0 || len(op.srcs) == len(w.shards) {
+				if len(op.srcs) == 0 || len(op.srcs) == att {
 					op.kind = "get"
 					op.id = r.Intn(nreg)
 				}
 			}
+			if op.kind == "x:detach" {
+				return op.kind, func(*simkit.Task) {
+					// the operator completes the procedure: the evacuated shards are removed from the engine
+					var ids []string
+					for _, i := range op.srcs {
+						ids = append(ids, w.shards[i].id.String())
+						detached[i] = true
+					}
+					w.e.removeShards(ids...)
+					disturbed = true
+					history = append(history, "detach")
+					r.Fired("evacuated shards removed from the engine")
+					r.Op("detach %v", op.srcs)
+				}
+			}
+			if op.kind == "mode" && detached[op.sh] {
+				op.kind, op.id = "get", r.Intn(nreg)
+			}
 			return op.kind, func(t *simkit.Task) { byTask[t] = op; inFlight[op] = true; w.exec(op) }
 		},
 		boundary: func(key string) {
-			// Shard.Delete of a tombstone object = rollback of a failed tombstone broadcast
+			nbound++
 			f := strings.Split(key, ":")
+			// calls of the expired-objects handling (engine callback of the shard GC): lock checks
+			// and physical removals of regular objects that no workload operation makes
+			if f[1] == "islocked" || f[1] == "delete" {
+				for x := 0; x < nreg; x++ {
+					if !strings.Contains(f[2], short(w.addr(x).Object())) {
+						continue
+					}
+					byWorkload := false
+					for o := range inFlight {
+						if o.kind == "islocked" && o.id == x {
+							byWorkload = true
+						}
+					}
+					if f[1] == "islocked" && !byWorkload {
+						gcCheckAt[x] = nbound
+					} else if f[1] == "delete" {
+						gcDeleteAt[x] = nbound
+						r.Probe("expired-objects handling removes an object physically")
+					}
+				}
+			}
+			// Shard.Delete of a tombstone object = rollback of a failed tombstone broadcast
 			if f[1] != "delete" {
 				return
 			}
@@ -795,9 +876,20 @@ func runC08(r *simkit.R) {
 					// leaves it open whether the engine still "stores" the object: not judged)
 					break
 				}
+				if e := w.u.Specs[x].Exp; e >= 0 && w.ep.CurrentEpoch() > uint64(e) && (len(w.holders(x)) == 0 || gcCheckAt[x] > gcDeleteAt[x]) {
+					// already past its own expiration and either physically gone or possibly between the
+					// lock check and the removal of the expired-objects handling: whether the engine still
+					// "stores" it is only known once a Get has succeeded under the lock
+					if _, ok := armed[x]; !ok {
+						pendingArm[x] = op.id
+						lockAckAt[x] = nbound
+					}
+					break
+				}
 				if _, ok := armed[x]; !ok {
 					armed[x] = t.Ret
 					armedBy[x] = op.id
+					lockAckAt[x] = nbound
 					for o := range inFlight {
 						if o.kind == "lock" && o.id == op.id {
 							dupLock[x] = true
@@ -837,7 +929,18 @@ func runC08(r *simkit.R) {
 				r.Fired("evacuation")
 				history = append(history, "evacuate")
 				r.Logf("    evacuated %d", op.n)
+				if op.err == nil && r.Bool(50) {
+					ops = append(ops[:next], append([]*enOp{{kind: "x:detach", srcs: op.srcs}}, ops[next:]...)...)
+				}
 			case "get":
+				if l, ok := pendingArm[op.id]; ok && op.err == nil && bytes.Equal(op.val, w.bin(op.id)) && w.ep.CurrentEpoch() <= uint64(w.u.Specs[l].Exp) {
+					if _, done := armed[op.id]; !done {
+						armed[op.id] = t.Ret
+						armedBy[op.id] = l
+						r.Probe("lock accepted for an object past its own expiration and still retrievable")
+					}
+					delete(pendingArm, op.id)
+				}
 				judge(op.id, t.Call, op.err, op.val, "a Get of the history")
 			}
 		},
